@@ -438,16 +438,30 @@ def _s6(ctx, rel):
                    sample=u(n))
     col.ob("G16", "S6", f"{where}::strips-both", set(found) == {"sos", "eos"},
            f"_write_hyp strips {sorted(found)}", rel, w.line)
-    # the public wrappers pass (sos, eos) in that order
-    for spec in ("_datasets::SpectDataSet.write_hyp", "_datasets::LangDataSet.write_hyp"):
-        m = pkg.func(spec)
-        for c in own_calls(m.node):
-            if call_name(c) == "_write_hyp":
-                b = bind_args(c, w, False)
-                got = {p.name: u(a) for p, a, _ in b.pairs}
-                ok = (got.get("sos") or "").endswith(".sos") and (got.get("eos") or "").endswith(".eos")
-                col.ob("G1", "S6", f"{rel}::{m.qualname}::_write_hyp(sos,eos)", ok,
-                       f"{m.qualname} strips with sos={got.get('sos')}, eos={got.get('eos')}", rel, c.lineno, sample=got)
+    # per data-set class: the symbols inserted on reading (get_utterance_tuple -> _load_ref) and the symbols
+    # stripped on writing (write_hyp -> _write_hyp) are the same expressions, in (sos, eos) order
+    lr = pkg.func(f"{MOD}::_load_ref")
+    for cname in ("SpectDataSet", "LangDataSet"):
+        ci = pkg.cls(f"{MOD}::{cname}")
+        ins = strp = None
+        for fl in ci.methods.values():
+            for m in fl:
+                for c in own_calls(m.node):
+                    if call_name(c) == "_load_ref":
+                        b = bind_args(c, lr, False)
+                        g = {p.name: u(a) for p, a, _ in b.pairs}
+                        ins = (g.get("sos"), g.get("eos"), c.lineno)
+                    if call_name(c) == "_write_hyp":
+                        b = bind_args(c, w, False)
+                        g = {p.name: u(a) for p, a, _ in b.pairs}
+                        strp = (g.get("sos"), g.get("eos"), c.lineno)
+        if ins is None or strp is None:
+            raise AnalysisError(f"C12: {cname} does not call both _load_ref and _write_hyp")
+        ok = ins[:2] == strp[:2] and (ins[0] or "").endswith("sos") and (ins[1] or "").endswith("eos")
+        col.ob("G1", "S6", f"{rel}::{cname}::inserted-symbols==stripped-symbols", ok,
+               f"{cname} inserts (sos, eos) = {ins[:2]} when reading a reference but strips {strp[:2]} when writing a "
+               f"hypothesis: with symbols configured through the other source the written file keeps them", rel,
+               strp[2], sample=dict(inserted=ins[:2], stripped=strp[:2]))
 
 
 MANIFEST = dict(
@@ -497,6 +511,10 @@ def _mutants():
         M("strip-first-sos", D, "sos_idx = sos_idxs[-1].item()", "sos_idx = sos_idxs[0].item()", "strip-sos"),
         M("strip-last-eos", D, "eos_idx = eos_idxs[0].item()", "eos_idx = eos_idxs[-1].item()", "strip-eos"),
         M("strip-keeps-sos", D, "hyp = hyp[sos_idx + 1:]", "hyp = hyp[sos_idx:]", "strip-sos"),
+        M("write-hyp-other-symbol-source", D, "_write_hyp(hyp, pth, self.sos, self.eos)", "_write_hyp(hyp, pth, self.params.sos, self.params.eos)",
+          "inserted-symbols==stripped-symbols"),
+        M("write-hyp-symbols-swapped", D, "_write_hyp(hyp, pth, self.sos, self.eos)", "_write_hyp(hyp, pth, self.eos, self.sos)",
+          "G1"),
         M("utts-suffix-as-prefix", D, "x.startswith(file_prefix) and x.endswith(file_suffix)",
           "x.startswith(file_suffix) and x.endswith(file_suffix)", "G4/S7"),
         M("twin:rename-flag", D, "write_back", "dirty", "", -1, twin=True),
